@@ -1,6 +1,13 @@
 import BitcaskVerif.Props.C10
+import BitcaskVerif.Props.C06Bytes
 #print axioms Resp.c10_outcome
 #print axioms Resp.c10_read_total
 #print axioms Resp.c10_store
 #print axioms Resp.c10_get_pure
 #print axioms Resp.c10_alloc
+-- byte-level statements (Props/C06Bytes.lean)
+#print axioms Resp.c10_bytes_run_shape
+#print axioms Resp.c10_bytes_run_shape_unique
+#print axioms Resp.c10_bytes_serve
+#print axioms Resp.c10_bytes_store
+#print axioms Resp.c10_bytes_store_writes
